@@ -246,7 +246,7 @@ class World:
             e["deps"] = deps
         return e
 
-    def gen_world(self, rel):
+    def gen_world(self, rel, force=()):
         """A second world: same entities and non-relational attributes (kind, names, visible, bound, proctype)
         as read from FORD, but every relation field taken from [rel], the relation the generator wrote into
         the source (harness.gen.graphs.declared).  Entities FORD has and the generator does not know get no
@@ -276,11 +276,14 @@ class World:
                 keyid[r] = nxt[0]
                 kind = {"mod": "KMod", "type": "KType", "proc": "KProc", "iface": "KProc", "bound": "KProc",
                         "prog": "KProg", "block": "KBlock", "file": "KFile"}[r[0]]
+                extra = {"visible": rel[r]["visible"]} if r in rel and "visible" in rel[r] else {}
                 todo.append((nxt[0], dict(kind=kind, str=False, name=r[1], key=r, bound=r[0] == "bound",
-                                          proctype="Interface" if r[0] == "iface" else "")))
+                                          proctype="Interface" if r[0] == "iface" else "", **extra)))
             return keyid[r]
         for i, e in self.ents.items():
             todo.append((i, e))
+        for k in sorted(force):          # entities that must exist on the Spec side even if nothing refers to them
+            ref(k)
         while todo:
             i, e = todo.pop()
             g = dict(e)
